@@ -69,7 +69,7 @@ func checkC01(rep *core.Report) {
 		fmt.Println("warnings:", an.Warnings)
 		fmt.Println("clone stats (count, vals, ints, mem, iv, ub, nn, epoch):", obl.CloneStats)
 	}
-	total, open := reportObligations(rep, r1, an, func(o *obl.Obligation) bool { return o.Kind != "K6" && o.Kind != "K11" && o.Kind != "K5" }, c01Assumed)
+	total, open := reportObligations(rep, r1, an, func(o *obl.Obligation) bool { return o.Kind != "K6" && o.Kind != "K11" && o.Kind != "K12" }, c01Assumed)
 	reportObligations(rep, r6, an, func(o *obl.Obligation) bool { return o.Kind == "K6" }, c01Assumed)
 	n11, _ := reportObligations(rep, r11, an, func(o *obl.Obligation) bool { return o.Kind == "K11" }, c01Assumed)
 	if n11 == 0 {
